@@ -343,7 +343,7 @@ def cmd_replay(path, opts):
 
 def cmd_setup():
     code = ("import sys; sys.path.insert(0, '/repo'); import numpy, pandas, networkx, joblib, torch, pyparsing, opt_einsum;"
-            "import joblib.externals.cloudpickle; import pgmpy, pgmpy.models, pgmpy.inference, pgmpy.estimators, pgmpy.sampling, pgmpy.readwrite;"
+            "import cloudpickle; import pgmpy, pgmpy.models, pgmpy.inference, pgmpy.estimators, pgmpy.sampling, pgmpy.readwrite;"
             "print('pgmsim setup ok: pgmpy', pgmpy.__version__, 'from', pgmpy.__file__)")
     r = subprocess.run([PY, "-W", "ignore", "-c", code], env=worker_env(0))
     return r.returncode
